@@ -223,7 +223,7 @@ def run(ctx):
     res.distribution = {'kinds': kinds, 'sizes_top': dict(sorted(sizes.items(), key=lambda kv: -kv[1])[:12]),
                         'float_matrices': sum(1 for m in metas if is_float_matrix(m))}
     res.exhaustive = False
-    n, failing, errors = core.eval_agreement('c06', HEADER, 'agree_case', terms, shard=max(250, len(terms) // 48 + 1))
+    n, failing, errors = core.eval_agreement('c06', HEADER, 'agree_case', terms, shard=400)
     res.programs = n
     res.corr_errors = errors
     for i in failing:
